@@ -26,12 +26,14 @@ def generate(pids: List[str], nproc: int = OB.NPROC) -> List[ProofResult]:
         return list(ex.map(_gen, pids))
 
 
-def run(pids: List[str], timeout_s: float = OB.DEFAULT_TIMEOUT_S, nproc: int = OB.NPROC, verbose: bool = False
-        ) -> Tuple[List[ProofResult], List[OB.Obligation]]:
+def run(pids: List[str], timeout_s: float = OB.DEFAULT_TIMEOUT_S, nproc: int = OB.NPROC, verbose: bool = False,
+        prop: str = None) -> Tuple[List[ProofResult], List[OB.Obligation]]:
     t0 = time.time()
     results = generate(pids, nproc)
     allo: List[OB.Obligation] = []
     for r in results:
+        if prop:      # keep the obligations that serve this property (tags are per obligation)
+            r.obls = [o for o in r.obls if prop in o.meta.get("props", [prop])]
         allo.extend(r.obls)
     if verbose:
         print("generated %d obligations from %d proofs in %.1fs" % (len(allo), len(results), time.time() - t0), flush=True)
